@@ -287,7 +287,7 @@ fn compare(root: &VfsPath, m: &Model, universe: &[&str]) -> Option<String> {
     None
 }
 fn universe_alias(_got: &str, _p: &str) -> bool { false }
-const UNIVERSE: [&str; 11] = ["", "/a", "/ab", "/a.b", "/a/b", "/a/b/c", "/é", "/é/x", "/.h", "/a\\z", "/mv"];
+const UNIVERSE: [&str; 12] = ["", "/a", "/ab", "/a.b", "/a/b", "/a/b/c", "/a/a", "/é", "/é/x", "/.h", "/a\\z", "/mv"];
 fn make_backend(kind: &str) -> (VfsPath, Box<dyn Fn() -> Option<String>>) {
     match kind {
         "memory" => (MemoryFS::new().into(), Box::new(|| None)),
@@ -456,7 +456,7 @@ fn oracle_overlay(depth: usize) -> bool {
 fn big_h() -> Vec<u8> { (0..20_000u32).map(|i| (i % 251) as u8).collect() }
 fn oracle_union(depth: usize) -> bool {
     let mut r = Report::new("union.overlay");
-    let universe = ["", "/f", "/d", "/d/g", "/h", "/n", "/d/n", "/e", "/mv"];
+    let universe = ["", "/f", "/d", "/d/g", "/h", "/n", "/d/n", "/e", "/mv", "/d/s", "/d/s/n"];
     let ops = [Op::CreateDir, Op::CreateFile, Op::Append, Op::RemoveFile, Op::RemoveDir, Op::RemoveDirAll, Op::CreateDirAll, Op::MoveTo, Op::CopyTo];
     let steps: Vec<(Op, &str)> = ops.iter().flat_map(|o| universe[1..].iter().map(move |p| (*o, *p))).collect();
     let mut seqs: Vec<Vec<(Op, &str)>> = vec![vec![]];
@@ -468,17 +468,17 @@ fn oracle_union(depth: usize) -> bool {
             let l2: VfsPath = MemoryFS::new().into();
             l1.join("d").unwrap().create_dir().unwrap();
             l1.join("d/g").unwrap().create_file().unwrap().write_all(b"g1").unwrap();
+            l2.join("d").unwrap().create_dir().unwrap(); l2.join("d/s").unwrap().create_dir().unwrap();
             l1.join("f").unwrap().create_file().unwrap().write_all(b"f1").unwrap();
             l1.join("e").unwrap().create_dir().unwrap();
             l2.join("f").unwrap().create_file().unwrap().write_all(b"f2").unwrap();
             l2.join("h").unwrap().create_file().unwrap().write_all(&big_h()).unwrap();
             // names ending in "_wo" are reserved by the overlay (C01 leaves them unspecified) and are not generated: on the pinned tree the marker of
             // "/f" (.whiteout/f_wo) collides with the marker folder of a directory "/f_wo"
-            l2.join("d").unwrap().create_dir().unwrap();
             let mut m: Model = BTreeMap::new();
             m.insert(String::new(), Node::Dir);
             m.insert("/d".into(), Node::Dir); m.insert("/d/g".into(), Node::File(b"g1".to_vec())); m.insert("/f".into(), Node::File(b"f1".to_vec()));
-            m.insert("/e".into(), Node::Dir); m.insert("/h".into(), Node::File(big_h()));
+            m.insert("/e".into(), Node::Dir); m.insert("/h".into(), Node::File(big_h())); m.insert("/d/s".into(), Node::Dir);
             if upper_has_f { upper.join("f").unwrap().create_file().unwrap().write_all(b"f0").unwrap(); m.insert("/f".into(), Node::File(b"f0".to_vec())); }
             let ov: VfsPath = OverlayFS::new(&[upper.clone(), l1, l2]).into();
             // filter out the input classes of the known findings (evaluated on the model / upper layer as the sequence proceeds)
@@ -649,6 +649,15 @@ fn oracle_faults() -> bool {
             if rm.is_ok() && ov.join("d/h").unwrap().exists().unwrap() { bad = Some("remove_file Ok but the entry is still visible".into()); }
             if mk.is_ok() && !ov.join("n").unwrap().is_dir().unwrap() { bad = Some("create_dir Ok but no directory".into()); }
             if snapshot(&low) != low_before { bad = Some("a lower layer changed".into()); }
+            (n, bad) })),
+        ("overlay.recreate", Box::new(|k| { let (up, st) = faulty(); let low: VfsPath = MemoryFS::new().into(); put(&low, "f", Some(b"low")); put(&low, "d/h", Some(b"h"));
+            let ov: VfsPath = OverlayFS::new(&[up.clone(), low.clone()]).into(); ov.join("f").unwrap().remove_file().unwrap(); ov.join("d/h").unwrap().remove_file().unwrap(); ov.join("d").unwrap().remove_dir().unwrap();
+            st.calls.store(0, Ordering::SeqCst); st.countdown.store(k, Ordering::SeqCst);
+            let mk = ov.join("f").unwrap().create_file().map(|mut h| h.write_all(b"new").is_ok()); let md = ov.join("d").unwrap().create_dir();
+            let n = st.calls.load(Ordering::SeqCst); st.countdown.store(-1, Ordering::SeqCst);
+            let mut bad = None;
+            if let Ok(true) = mk { if ov.join("f").unwrap().read_to_string().map(|x| x != "new").unwrap_or(true) { bad = Some("create_file over a removed entry reported Ok but the file is not there with the new bytes".to_string()); } }
+            if md.is_ok() && !(ov.join("d").unwrap().is_dir().unwrap_or(false) && ov.join("d").unwrap().read_dir().map(|it| it.count() == 0).unwrap_or(false)) { bad = Some("create_dir over a removed directory reported Ok but no empty directory is visible".into()); }
             (n, bad) })),
         ("overlay.lower_faulty", Box::new(|k| { let up: VfsPath = MemoryFS::new().into(); let (low, st) = faulty(); put(&low, "f", Some(b"low")); put(&low, "d/h", Some(b"h"));
             let ov: VfsPath = OverlayFS::new(&[up.clone(), low.clone()]).into();
